@@ -391,9 +391,12 @@ where
         A: GLWEInfos,
         B: BDDKeyInfos,
     {
-        self.circuit_bootstrapping_execute_tmp_bytes(block_size, extension_factor, res_infos, &bdd_infos.cbt_infos())
-            + GGSW::bytes_of_from_infos(res_infos)
-            + LWE::bytes_of_from_infos(bits_infos)
+        // Every take from the scratch re-aligns to `DEFAULTALIGN`, and the multi-threaded preparation hands
+        // each thread an aligned slice of this many bytes: each part is rounded up to the alignment.
+        let align = |bytes: usize| bytes.next_multiple_of(poulpy_hal::DEFAULTALIGN);
+        align(self.circuit_bootstrapping_execute_tmp_bytes(block_size, extension_factor, res_infos, &bdd_infos.cbt_infos()))
+            + align(GGSW::bytes_of_from_infos(res_infos))
+            + align(LWE::bytes_of_from_infos(bits_infos))
     }
 
     fn fhe_uint_prepare_custom_multi_thread<DM, DB, DK, K, T: UnsignedInteger>(
